@@ -416,3 +416,37 @@ func VerifC13_QsubWriteDuringQuery() {
 	rt.Assert(len(kinds) > 0 && kinds[len(kinds)-1] == "done", "qsubwrite/ends-with-done")
 	rt.Reach("qsubwrite-end")
 }
+
+// ---- qsub cancelled while its query phase is still running: the whole
+// operation ends - no subscription keeps running behind the client's back ----
+
+func VerifC13_QsubCancelDuringQuery() {
+	rt.SchedYieldOnly(true)
+	rt.CodecFaults(false)
+	api := c13Setup()
+	k := 1 + rt.Choice("records", 2)
+	c13Seed(api, []string{"tdb:q/1", "tdb:q/2"}[:k]...)
+	cancelled := false
+	c13OnReply = func(data []byte) {
+		// the client cancels when it sees the first record of the query phase
+		if !cancelled && bytes.HasPrefix(data, []byte("q7|ok|")) {
+			cancelled = true
+			api.Handle([]byte("q7|cancel"))
+			rt.Quiesce(time.Second)
+		}
+	}
+	api.Handle(c13Msg("q7", "qsub", "query tdb:q/"))
+	rt.Quiesce(3 * time.Second)
+	rt.Assert(cancelled, "qsubcancel/cancel-issued-during-query-phase")
+	before := len(c13Replies)
+	// a matching write after the cancel is not announced any more
+	api.Handle(append(c13Msg("w8", "update", "tdb:q/1|"), 'J', '{', '}'))
+	rt.Quiesce(time.Second)
+	for _, r := range c13Replies[before:] {
+		rt.Assert(!bytes.HasPrefix(r, []byte("q7|")), "qsubcancel/nothing-announced-after-the-cancel")
+	}
+	api.subsLock.Lock()
+	rt.Assert(len(api.subs) == 0, "qsubcancel/no-subscription-left-running")
+	api.subsLock.Unlock()
+	rt.Reach("qsubcancel-end")
+}
